@@ -133,6 +133,47 @@ func c18Auth(c *Ctx) {
 					delegated = true
 				}
 			}
+			// ... or handed up through a helper that was walked in line (decrypt -> decryptLegacy ->
+			// open_easy): the outcome of the error is unknown on this path, and whatever it can be
+			// is an error made right there or the error of an authenticating function
+			if !delegated && ex.ErrNil == -1 {
+				sc := c.Scope(fn)
+				var fromAuth func(v ssa.Value, d int) bool
+				fromAuth = func(v ssa.Value, d int) bool {
+					e, ok := v.(*ssa.Extract)
+					if !ok || d > 3 {
+						return false
+					}
+					cl, ok := e.Tuple.(*ssa.Call)
+					if !ok {
+						return false
+					}
+					cal := cl.Call.StaticCallee()
+					if cal == nil {
+						return false
+					}
+					if !sc.Contains(cal) || cal == fn {
+						return auth[cal]
+					}
+					n := 0
+					for _, b := range cal.Blocks {
+						ret, isRet := b.Instrs[len(b.Instrs)-1].(*ssa.Return)
+						if !isRet {
+							continue
+						}
+						re := an.RetErr(ret)
+						if re == nil || an.IsNilConst(re) || an.KnownNonNil(re) {
+							continue // known outcomes: decided by the walk itself
+						}
+						n++
+						if !fromAuth(re, d+1) {
+							return false
+						}
+					}
+					return n > 0
+				}
+				delegated = fromAuth(an.RetErr(ex.Ret), 0)
+			}
 			if !delegated {
 				badRet[ex.Ret] = true
 			}
@@ -379,6 +420,61 @@ func c18Deterministic(c *Ctx) {
 
 // nonceAllocFrom: the array al is filled by copy(al[:], nonce(f(msg, key))…), or is the result of a
 // same-package helper called with msg and key whose returned array is filled that way.
+// nonceCallFrom: nc is nonce(f(message, key)), or a call of a kv helper that is given message and
+// key and returns, on every path, the result of such a call (messageNonce(key, message)).
+func nonceCallFrom(nc *ssa.Call, msgP, keyP ssa.Value, nonceFn *ssa.Function, depth int) bool {
+	if depth > 2 {
+		return false
+	}
+	h := nc.Call.StaticCallee()
+	if h == nil {
+		return false
+	}
+	if h == nonceFn {
+		a := nc.Call.Args[0]
+		dm := an.DependsOn(a, func(w ssa.Value) bool { return w == msgP })
+		dk := an.DependsOn(a, func(w ssa.Value) bool { return w == keyP })
+		return dm && dk
+	}
+	if an.PkgPathOf(h) != kvPkg || len(h.Blocks) == 0 {
+		return false
+	}
+	var hm, hk ssa.Value
+	for i, a := range nc.Call.Args {
+		if i >= len(h.Params) {
+			break
+		}
+		if an.SameValue(a, msgP) {
+			hm = h.Params[i]
+		}
+		if an.SameValue(a, keyP) {
+			hk = h.Params[i]
+		}
+	}
+	if hm == nil || hk == nil {
+		return false
+	}
+	n := 0
+	for _, b := range h.Blocks {
+		ret, isRet := b.Instrs[len(b.Instrs)-1].(*ssa.Return)
+		if !isRet || len(ret.Results) == 0 {
+			continue
+		}
+		n++
+		rv := an.RetVal(ret, 0)
+		if an.IsNilConst(rv) {
+			continue // the failing return
+		}
+		if !an.DependsOn(rv, func(v ssa.Value) bool {
+			c2, ok := v.(*ssa.Call)
+			return ok && nonceCallFrom(c2, hm, hk, nonceFn, depth+1)
+		}) {
+			return false
+		}
+	}
+	return n > 0
+}
+
 func nonceAllocFrom(al *ssa.Alloc, msgP, keyP ssa.Value, nonceFn *ssa.Function, depth int) bool {
 	if depth > 2 || al.Referrers() == nil {
 		return false
@@ -398,13 +494,7 @@ func nonceAllocFrom(al *ssa.Alloc, msgP, keyP ssa.Value, nonceFn *ssa.Function, 
 				src := cp.Call.Args[1]
 				if an.DependsOn(src, func(v ssa.Value) bool {
 					nc, ok := v.(*ssa.Call)
-					if !ok || nc.Call.StaticCallee() != nonceFn {
-						return false
-					}
-					a := nc.Call.Args[0]
-					dm := an.DependsOn(a, func(w ssa.Value) bool { return w == msgP })
-					dk := an.DependsOn(a, func(w ssa.Value) bool { return w == keyP })
-					return dm && dk
+					return ok && nonceCallFrom(nc, msgP, keyP, nonceFn, 0)
 				}) {
 					return true
 				}
@@ -795,6 +885,42 @@ func init() {
 	explain["C18"] += " legacy-selected: 'data written by the earlier hand-rolled box format remains readable' — the old format (crypto_secretbox_detached, still in the source) computes the same Poly1305 tag as secretbox over a ciphertext whose key stream restarts behind the first 32 bytes; authentication therefore succeeds for both formats and cannot select one: an old object longer than 32 bytes opens under secretbox.Open with a garbled tail and no error, and the fallback is never reached. The only discriminator is the nonce, which encrypt derives from message and key. On every path on which decrypt returns secretbox.Open's plaintext, either a length test bounds it to the 32 bytes on which the formats agree, or nonce() was applied to a value derived from that plaintext. Decided: that the discriminator is consulted; not its polarity, nor byte-level compatibility."
 }
 
+// derivesNonceFrom: cl applies nonce() to a value accepted by from — itself, or inside a kv helper
+// that is handed such a value and applies nonce() to something derived from that parameter
+// (messageNonce(key, message), shared by encrypt and the comparison).
+func derivesNonceFrom(cl *ssa.Call, from func(ssa.Value) bool, nonceFn *ssa.Function, depth int) bool {
+	h := cl.Call.StaticCallee()
+	if h == nil || depth > 2 {
+		return false
+	}
+	if h == nonceFn {
+		for _, a := range cl.Call.Args {
+			if from(a) {
+				return true
+			}
+		}
+		return false
+	}
+	if an.PkgPathOf(h) != kvPkg || len(h.Blocks) == 0 {
+		return false
+	}
+	for i, a := range cl.Call.Args {
+		if i >= len(h.Params) || !from(a) {
+			continue
+		}
+		hp := h.Params[i]
+		inner := func(v ssa.Value) bool {
+			return an.DependsOn(v, func(w ssa.Value) bool { return w == ssa.Value(hp) })
+		}
+		for _, c2 := range an.Calls(h) {
+			if cc, ok := c2.(*ssa.Call); ok && derivesNonceFrom(cc, inner, nonceFn, depth+1) {
+				return true
+			}
+		}
+	}
+	return false
+}
+
 type legacyState struct{ confirmed, short bool }
 
 func (l legacyState) Key() string { return fmt.Sprintf("%v/%v", l.confirmed, l.short) }
@@ -844,12 +970,8 @@ func c18LegacySelected(c *Ctx) {
 	h := an.THooks{}
 	h.Instr = func(in ssa.Instruction, st0 an.TState) an.TState {
 		st := st0.(legacyState)
-		if cl, ok := in.(*ssa.Call); ok && cl.Call.StaticCallee() == nonceFn {
-			for _, a := range cl.Call.Args {
-				if fromPlain(a, 0) {
-					st.confirmed = true
-				}
-			}
+		if cl, ok := in.(*ssa.Call); ok && derivesNonceFrom(cl, func(a ssa.Value) bool { return fromPlain(a, 0) }, nonceFn, 0) {
+			st.confirmed = true
 		}
 		return st
 	}
